@@ -13,7 +13,7 @@ from ..util import as_list, tmp_dir, write_flat, make_cbin
 IMPORTS = ('phylib.io.traces',)
 NR, NC = 3, 2
 BIG = 100000
-SCALARS = {'i2': 2, 'i3': 3, 'im1': -1, 'f05': 0.5, 'f2': 2.0}
+SCALARS = {'i2': 2, 'i3': 3, 'im1': -1, 'f05': 0.5, 'f3': 3.0}
 COLS = {'c21': [1, 0], 'c1': [0], 'c12': [0, 1], 'c2': [1], 'c11': [0, 0]}
 BINOPS = {
     'add': lambda x, a: x + a, 'radd': lambda x, a: a + x,
@@ -244,7 +244,7 @@ def _random_forest_records(ctx, backends, rng, rid0, steps):
 def run(ctx):
     sfx = '' if ctx.quick else '_thorough'
     ctx.rule = ('S->C: every operator program of depth 2 (3 thorough) over the 14 operators x '
-                '{2, 3, -1, 0.5, 2.0} and 3 column selections, and every derivation tree of 4 derived '
+                '{2, 3, -1, 0.5, 3.0} and 3 column selections, and every derivation tree of 4 derived '
                 'readers over 7 operations with every choice of parent, replayed on real readers of '
                 'several backends/sample types; after EVERY derivation EVERY live reader is re-indexed '
                 'with 6 row items (+ column selector) and compared (values and dtype) with eager NumPy, '
